@@ -1,6 +1,7 @@
 (* Extraction of the C18 model: the daemon's per-connection handler and the frame codec (ExtrOcamlBasic only). *)
 Require Extraction.
 Require Import ExtrOcamlBasic.
-From NV Require Import Proto.Vmd gen.VmdConsts gen.VmdFacts.
+From NV Require Import Proto.Vmd Proto.VmdProofs gen.VmdConsts gen.VmdFacts gen.SigpipeSites.
 Extraction "../build/extract/ex_c18.ml" client_thread serve recv_header encode_frame decode_frames client_observe
-  standalone_observe load_exec_request d0 wf_frameb dec_Z vmd_ignores_sigpipe verify_before_execute.
+  standalone_observe load_exec_request boot wf_frameb dec_Z vmd_ignores_sigpipe verify_before_execute
+  vmd_exit_from_main standalone_exit_from_main real_cfg sigpipe_sites_ok.
